@@ -124,6 +124,7 @@ class Analysis:
         self.f = facts
         self.ip = Interp(facts, join_exits)
         self.ip.ts = self
+        self.ts_types = set(TYPESTATE)
         self.invs = {}
         self.inv_info = {}
         self._contains = {}
